@@ -883,6 +883,14 @@ package server
 //@   ensures [stale-refused] epoch < old(c.epoch) ==> result != nil && c.epoch == old(c.epoch)
 //@   ensures [forgotten] result == nil ==> !(stream in c.subscribers)
 //@   ensures [current-accepted] epoch >= old(c.epoch) ==> result == nil
+// the end of a replay hands out nothing: it starts the members' liveness timers (on the coordinator) and clears the
+// recovery flag; members, subscriptions, heaps, assignments and the epoch are what the replayed operations left - the
+// same as on a server that applied those operations live (determinism clause: "servers that applied the same sequence
+// of group operations hand out identical assignments for the same group epoch")
+//@ func (*consumerGroup).StartRecovered serves C12
+//@   requires c != nil
+//@   modifies c.recovered, all(consumer.timer)
+//@   ensures [recovery-ended] !c.recovered
 // assignments are served only by the coordinator and only for the current epoch
 //@ func (*consumerGroup).GetAssignments serves C12
 //@   returns (assignments, gepoch, err)
